@@ -86,11 +86,11 @@ SER_REWRITES = [
 
 INNER_ARGS_INV = [
     '%s ==> st_rest(s0)' % H, '%s ==> forall|j: int| 0 <= j < args@.len() ==> prim_ok(#[trigger] args@[j])' % H,
-    '%s ==> (f.st().recs == s0.recs && prefix_is(f.st().pend, args@, it.index@ as int) && !f.st().bad && !f.st().glued && f.st().arr is None)' % H,
+    '%s ==> (f.st().recs == s0.recs && f.st().last == s0.last && prefix_is(f.st().pend, args@, it.index@ as int) && !f.st().bad && !f.st().glued && f.st().arr is None)' % H,
 ]
 INNER_TJ_INV = [
     '%s ==> st_rest(s0)' % H, '%s ==> forall|j: int| 0 <= j < array@.len() ==> tja_ok(#[trigger] array@[j])' % H,
-    '%s ==> (f.st().recs == s0.recs && f.st().pend == s0.pend && !f.st().bad && (i == 0 ==> !f.st().glued) '
+    '%s ==> (f.st().recs == s0.recs && f.st().last == s0.last && f.st().pend == s0.pend && !f.st().bad && (i == 0 ==> !f.st().glued) '
     '&& f.st().arr is Some && tj_prefix_is(f.st().arr->Some_0, array@, i as int))' % H,
 ]
 
